@@ -24,7 +24,27 @@ def errName : Err → String
 def fieldsStr (fs : List (List UInt8)) : String :=
   if fs.isEmpty then "-" else ",".intercalate (fs.map hexOfBytes)
 
+def lexLe : List UInt8 → List UInt8 → Bool
+  | [], _ => true
+  | _ :: _, [] => false
+  | a :: as, b :: bs => a < b || (a == b && lexLe as bs)
+
+/-- `bip39.sweep`: the strings over a…z of length `n` that `mnemonicToEntropy` does not reject as unknown when they stand
+in front of eleven list words — by `Props.C03` (acceptance ⇔ count, membership, checksum; the unknown-word error comes
+before any checksum work) exactly the list words of that shape, here in lexicographic order as the harness enumerates. -/
+def sweep (W : List Word) (n : Nat) : List Word :=
+  (W.filter fun w => w.length == n && w.all fun c => 0x61 ≤ c && c ≤ 0x7a).mergeSort lexLe
+
 def ops : List (String × Handler) := [
+  ("bip39.sweep", fun
+    | [lang, n] => match wordList lang, n.toNat? with
+      | some W, some k =>
+        if 1 ≤ k ∧ k ≤ 5 then
+          let ws := sweep W k
+          s!"known={ws.length} {",".intercalate (ws.map hexOfBytes)}"
+        else badOp
+      | _, _ => badOp
+    | _ => badOp),
   ("bip39.enc", fun
     | [lang, h] => match wordList lang, bytesOfHex h with
       | some W, some e => match entropyToMnemonic Hash.sha256 W e with
